@@ -121,16 +121,52 @@ func lalrkGram2(r *rand.Rand) (*Gram, int) {
 	return g, 3
 }
 
+// lalrkGram3: TWO conflict states whose lookahead rows differ only in the nested lookahead table they
+// point to (the rules competing after the shared terminal differ per context).
+func lalrkGram3(r *rand.Rand) (*Gram, int) {
+	if r.Intn(2) == 0 {
+		// input: A a b | B a c | C a d ; A: e | f ; B: e ; C: f
+		g := &Gram{Shape: "lalrk3a", NT: 7}
+		a, b, cc, d, e, f := 1, 2, 3, 4, 5, 6
+		in, A, B, C := g.NT, g.NT+1, g.NT+2, g.NT+3
+		g.NN = 4
+		g.Rules = []GRule{
+			{LHS: in, RHS: []int{A, a, b}}, {LHS: in, RHS: []int{B, a, cc}}, {LHS: in, RHS: []int{C, a, d}},
+			{LHS: A, RHS: []int{e}}, {LHS: A, RHS: []int{f}}, {LHS: B, RHS: []int{e}}, {LHS: C, RHS: []int{f}},
+		}
+		g.Inputs = []GInput{{Sym: in, Eoi: true}}
+		return g, 2
+	}
+	// input: p A1 t u | p B1 t v | q A2 t u | q B2 t v ; A1: x ; B1: x ; A2: y ; B2: y
+	g := &Gram{Shape: "lalrk3b", NT: 8}
+	pp, q, t, u, v, x, y := 1, 2, 3, 4, 5, 6, 7
+	in, A1, B1, A2, B2 := g.NT, g.NT+1, g.NT+2, g.NT+3, g.NT+4
+	g.NN = 5
+	u2, v2 := u, v
+	if r.Intn(2) == 0 {
+		u2, v2 = v, u
+	}
+	g.Rules = []GRule{
+		{LHS: in, RHS: []int{pp, A1, t, u}}, {LHS: in, RHS: []int{pp, B1, t, v}},
+		{LHS: in, RHS: []int{q, A2, t, u2}}, {LHS: in, RHS: []int{q, B2, t, v2}},
+		{LHS: A1, RHS: []int{x}}, {LHS: B1, RHS: []int{x}}, {LHS: A2, RHS: []int{y}}, {LHS: B2, RHS: []int{y}},
+	}
+	g.Inputs = []GInput{{Sym: in, Eoi: true}}
+	return g, 2
+}
+
 func c07(c *Ctx) {
-	c.Rule = "grammars built to need 2-4 tokens of lookahead (two reductions of one RHS whose contexts share a prefix made of terminals, terminal-deriving and nullable nonterminals) plus random CFGs, compiled by the real lalr.Compile with Lookahead k in 2..4; for each grammar that compiles without error: (1) Lean recomputes LALR(k) lookahead strings by item propagation, walks every lookahead automaton in the tables on every string, and checks the two certificates that are the hypotheses of C07_lr_sound_k / C07_lr_complete_k / C07_lr_exact_k (past-certificate against every leaf of every lookahead automaton; LR(k)-item certificate) on the real tables, (2) all token strings up to length 5 + random sentences/mutations are run through the Lean parser model on the real tables and compared with a brute-force recogniser; non-trivial = UsedLADepth > 0; distinct by grammar"
+	c.Rule = "grammars built to need 2-4 tokens of lookahead (two reductions of one RHS whose contexts share a prefix made of terminals, terminal-deriving and nullable nonterminals; two conflict states whose rows differ only in the nested lookahead table; a third of the grammars also compiled with MinimizeDFA for the sentences check) plus random CFGs, compiled by the real lalr.Compile with Lookahead k in 2..4; for each grammar that compiles without error: (1) Lean recomputes LALR(k) lookahead strings by item propagation, walks every lookahead automaton in the tables on every string, and checks the two certificates that are the hypotheses of C07_lr_sound_k / C07_lr_complete_k / C07_lr_exact_k (past-certificate against every leaf of every lookahead automaton; LR(k)-item certificate) on the real tables, (2) all token strings up to length 5 + random sentences/mutations are run through the Lean parser model on the real tables and compared with a brute-force recogniser; non-trivial = UsedLADepth > 0; distinct by grammar"
 	n := c.N(250, 4000)
 	for i := 0; i < n; i++ {
 		var g *Gram
 		k := 2 + c.Rng.Intn(3)
 		if c.Rng.Intn(4) != 0 {
 			var need int
-			if c.Rng.Intn(5) == 0 {
+			if r := c.Rng.Intn(6); r == 0 {
 				g, need = lalrkGram2(c.Rng)
+			} else if r == 1 {
+				g, need = lalrkGram3(c.Rng)
 			} else {
 				g, need = lalrkGram(c.Rng)
 			}
@@ -178,10 +214,26 @@ func c07(c *Ctx) {
 		if !g.AllProductive() || known {
 			continue
 		}
+		// the same grammar with MinimizeDFA: states with lookahead automata may only be merged when
+		// the automata agree (sentences check only: merged states are not the canonical collection)
+		var tm *lalr.Tables
+		if c.Rng.Intn(3) == 0 {
+			if t2, err2, pan2 := compileLalr(g.Lalr(), lalr.Options{Lookahead: k, MinimizeDFA: true}); pan2 != "" {
+				c.Violate("lalr.Compile(Lookahead, MinimizeDFA) panicked: "+pan2, g.Pretty())
+			} else if err2 == nil {
+				tm = t2
+				c.Count("also compiled with minimizeDFA")
+			}
+		}
 		for idx, in := range g.Inputs {
 			ws := sampleWords(c, g, in.Sym, 4, 6)
 			c.Debugf("accept k=%d %s", k, g.Pretty())
-			c.Case(fmt.Sprintf("accept %s %d %s", tablesStr(t, g.NT), idx, wordSpecs(g, in, ws, false)), "ok", "")
+			specs := wordSpecs(g, in, ws, false)
+			c.Case(fmt.Sprintf("accept %s %d %s", tablesStr(t, g.NT), idx, specs), "ok", "")
+			if tm != nil {
+				c.Debugf("accept (minimized) k=%d %s", k, g.Pretty())
+				c.Case(fmt.Sprintf("accept %s %d %s", tablesStr(tm, g.NT), idx, specs), "ok", "")
+			}
 		}
 	}
 }
